@@ -4,8 +4,15 @@
      {"ev":"Reset","sid":n,"impl":"v1"|"v2"}     fresh store, Run started
      {"ev":"AwaitCall","r":id,"k":{"d":..,"p":..}}   logged BEFORE the reader goroutine is started
      {"ev":"AwaitReturn","r":id,"got":<value id>|"err"}   Await returned a value / the context error
-     {"ev":"StoreCall","set":[{"k":{..},"v":id},..]}    logged before Store is called (one duty per call)
-     {"ev":"StoreRet","res":"ok"|"mismatch"}            logged when Store has returned
+     {"ev":"StoreCall","w":id,"set":[{"k":{..},"v":id},..]}   logged before writer w calls Store (one duty per call)
+     {"ev":"StoreRet","w":id,"res":"ok"|"mismatch"}     logged when the driver has seen w's Store return
+                     Sequential schedule steps use writer "w0".  In a CONCURRENT block the driver starts writers
+                     w1, w2(, w3) one after the other while the earlier ones are held inside the store (the
+                     scripted deadliner's Add is a gate), then opens the gate: the trace has several StoreCall
+                     events before the matching StoreRet events (call/ret bracketing) and TLC infers the
+                     linearisation (silent Acquire / StoreEntry / StoreReturn steps of the writers in any order
+                     the design spec allows).  The order of StoreRet events is the order in which the driver SAW
+                     the calls return (StoreAck), not the order in which they finished inside the store.
      {"ev":"Cancel","r":id}                             logged before the reader's context is cancelled
      {"ev":"Expire","d":duty}                           the deadliner stub reports the duty (and Run has served it)
      {"ev":"Hang",..}                                   something did not return within the generous wait: NO step
@@ -29,16 +36,17 @@
      before an Expire event of r's duty.  A stored value never changes until it expires (ValueStable) and no other
      step looks at whether r is "called" or "done", so every earlier Query can be moved there.  Without this, m
      readers woken by one Store give 2^m interleavings of their silent Query steps.
-   * StoreEntry order is canonical when no remaining entry conflicts (then the result is order-independent). *)
-EXTENDS AggSigDB, TraceCommon
-VARIABLES known, expd
-tvars == <<vars, known, expd, tr, l>>
-TraceInit == TrInit /\ Init /\ impl = Traces[tr][1].impl /\ known = {} /\ expd = {}
+   * StoreEntry order is canonical when one writer is active and none of its remaining entries conflicts (then
+     the result is order-independent). *)
+EXTENDS AggSigDB, TraceCommon, FiniteSets
+VARIABLES known, expd, cset      \* cset: writer -> the set of its current Store call
+tvars == <<vars, known, expd, cset, tr, l>>
+TraceInit == TrInit /\ Init /\ impl = Traces[tr][1].impl /\ known = {} /\ expd = {} /\ cset = <<>>
 MustRet(r) == Live(r) /\ (rd[r].cx \/ rd[r].k \in known)
-Quiet == ~wr.on /\ \A r \in DOMAIN rd : ~MustRet(r)
-UK == UNCHANGED <<known, expd>>
+Quiet == \A r \in DOMAIN rd : ~MustRet(r)
+UK == UNCHANGED <<known, expd, cset>>
 TReset == IsEvent("Reset") /\ UNCHANGED vars /\ UK
-TAwaitCall == IsEvent("AwaitCall") /\ Quiet /\ AwaitCall(Ev.r, Ev.k) /\ UK
+TAwaitCall == IsEvent("AwaitCall") /\ Quiet /\ ~AnyWr /\ AwaitCall(Ev.r, Ev.k) /\ UK
 TQuery == \E r \in DOMAIN rd :
             /\ Query(r) /\ Stored(rd[r].k) /\ Silent /\ UK
             /\ l <= TLen
@@ -50,25 +58,31 @@ TAwaitReturn ==
        THEN ReturnErr(Ev.r) /\ UK
        ELSE /\ ReturnVal(Ev.r) /\ rd[Ev.r].got = Ev.got
             /\ known' = IF rd[Ev.r].k.d \in expd THEN known ELSE known \cup {rd[Ev.r].k}
-            /\ UNCHANGED expd
-TStoreCall == IsEvent("StoreCall") /\ Quiet /\ StoreCall(SeqToSet(Ev.set)) /\ UK
+            /\ UNCHANGED <<expd, cset>>
+TStoreCall == /\ IsEvent("StoreCall") /\ Quiet /\ StoreCall(Ev.w, SeqToSet(Ev.set))
+              /\ cset' = [x \in DOMAIN cset \cup {Ev.w} |-> IF x = Ev.w THEN SeqToSet(Ev.set) ELSE cset[x]]
+              /\ UNCHANGED <<known, expd>>
 Conflict(e) == Stored(e.k) /\ data[e.k] # e.v
-TStoreEntry == \E e \in wr.todo :
-                 /\ StoreEntry(e) /\ Silent /\ UK
-                 /\ (\E c \in wr.todo : Conflict(c)) \/ e = CHOOSE x \in wr.todo : TRUE
-TStoreRet == /\ IsEvent("StoreRet") /\ StoreReturn /\ last' = Ev.res
-             /\ Trace[l - 1].ev = "StoreCall"
-             /\ known' = IF Ev.res = "ok" THEN known \cup {e.k : e \in SeqToSet(Trace[l - 1].set)} ELSE known
-             /\ UNCHANGED expd
-TCancel == IsEvent("Cancel") /\ Quiet /\ Cancel(Ev.r) /\ UK
-TExpire == /\ IsEvent("Expire") /\ Quiet /\ Expire(Ev.d)
-           /\ known' = {k \in known : k.d # Ev.d} /\ expd' = expd \cup {Ev.d}
-TraceNext == TReset \/ TAwaitCall \/ TQuery \/ TAwaitReturn \/ TStoreCall \/ TStoreEntry \/ TStoreRet
+NActive == Cardinality({w \in DOMAIN wr : wr[w].on /\ ~wr[w].fin})
+TStoreStep == \E w \in DOMAIN wr :
+                /\ Silent /\ UK
+                /\ \/ Acquire(w)
+                   \/ StoreReturn(w)
+                   \/ \E e \in wr[w].todo :
+                        /\ StoreEntry(w, e)
+                        /\ NActive > 1 \/ (\E c \in wr[w].todo : Conflict(c)) \/ e = CHOOSE x \in wr[w].todo : TRUE
+TStoreRet == /\ IsEvent("StoreRet") /\ StoreAck(Ev.w) /\ last'[Ev.w] = Ev.res
+             /\ known' = IF Ev.res = "ok" THEN known \cup {e.k : e \in cset[Ev.w]} ELSE known
+             /\ UNCHANGED <<expd, cset>>
+TCancel == IsEvent("Cancel") /\ Quiet /\ ~AnyWr /\ Cancel(Ev.r) /\ UK
+TExpire == /\ IsEvent("Expire") /\ Quiet /\ ~AnyWr /\ Expire(Ev.d)
+           /\ known' = {k \in known : k.d # Ev.d} /\ expd' = expd \cup {Ev.d} /\ UNCHANGED cset
+TraceNext == TReset \/ TAwaitCall \/ TQuery \/ TAwaitReturn \/ TStoreCall \/ TStoreStep \/ TStoreRet
              \/ TCancel \/ TExpire
 TraceSpec == TraceInit /\ [][TraceNext]_tvars
 Mark == /\ CheckInv("ReadsStored", ReadsStored) /\ CheckInv("CancelSound", CancelSound)
         /\ CheckInv("NoLostWakeup", NoLostWakeup) /\ CheckInv("TypeOK", TypeOK)
         /\ HWMark
 ActOK == /\ CheckInv("ValueStable", \A k \in DOMAIN data : k \in DOMAIN data' => data'[k] = data[k])
-         /\ CheckInv("MismatchNoChange", (wr'.err /\ ~wr.err) => data' = data)
+         /\ CheckInv("MismatchNoChange", (\E w \in DOMAIN wr : wr'[w].err /\ ~wr[w].err) => data' = data)
 ====
